@@ -378,10 +378,12 @@ func (d *Driver) GenVC(key string, safety bool, lockCheck bool) (fvc *FuncVC) {
 		res = &Val{Tup: results, S: &Sort{K: KTuple}}
 	}
 	bindResults(env2, fn.Signature, res)
-	for k, en := range c.Ensures {
+	nplain := -1
+	for _, en := range c.Ensures {
 		label := en.Label
 		if label == "" {
-			label = fmt.Sprint(k)
+			nplain++ // unlabelled clauses are numbered among themselves, so adding a labelled clause renames nothing
+			label = fmt.Sprint(nplain)
 		}
 		if en.SafetyOnly && !ex.safety {
 			continue
